@@ -699,7 +699,11 @@ smod_2exp_float(Type& to, const Type x, unsigned int exp, Rounding_Dir dir) {
   }
   PPL_ASSERT(exp < sizeof_to_bits(sizeof(unsigned long long)));
   Type m = 1ULL << exp;
-  rem_float<To_Policy, From_Policy, Float_2exp>(to, x, m, ROUND_IGNORE);
+  Result r = rem_float<To_Policy, From_Policy, Float_2exp>(to, x, m,
+                                                           ROUND_IGNORE);
+  if (result_class(r) == VC_NAN) {
+    return r;
+  }
   Type m2 = m / 2;
   if (to < -m2) {
     return add_float<To_Policy, From_Policy, Float_2exp>(to, to, m, dir);
@@ -721,7 +725,11 @@ umod_2exp_float(Type& to, const Type x, unsigned int exp, Rounding_Dir dir) {
   }
   PPL_ASSERT(exp < sizeof_to_bits(sizeof(unsigned long long)));
   Type m = 1ULL << exp;
-  rem_float<To_Policy, From_Policy, Float_2exp>(to, x, m, ROUND_IGNORE);
+  Result r = rem_float<To_Policy, From_Policy, Float_2exp>(to, x, m,
+                                                           ROUND_IGNORE);
+  if (result_class(r) == VC_NAN) {
+    return r;
+  }
   if (to < 0) {
     return add_float<To_Policy, From_Policy, Float_2exp>(to, to, m, dir);
   }
